@@ -1,6 +1,20 @@
 """Level text / notes per property for MANIFEST.json."""
 KERNEL = "Lean 4.33 kernel + axioms {propext, Classical.choice, Quot.sound}; constants translator; correspondence harness/driver (differential testing, not proof); "
 TEXT = {
+    "C19": {
+        "level": "Part 1, kernel-checked for every reply dictionary: without failure reason, with integer interval >= 0 and a peers list, the result is "
+                 "in listed order exactly the well-formed entries (UTF-8 ip, 20-byte id, port >= 0) rendered ip:port, and every kept entry is well-formed "
+                 "(T2); a byte-string failure reason - UTF-8 or not - makes the reply a failure (T3). Part 2, kernel-checked on the retry-protocol model "
+                 "(tracker task, bounded channel of any capacity > 0, manager, JoinHandle) for every number k of failed announces and every interleaving: "
+                 "the manager never waits for a retrying tracker (invariant by induction over reachable states), no deadlock before the peers are "
+                 "contacted, every step decreases a measure, so every maximal execution has at most 9k+6 steps and ends with the peers contacted (T4); "
+                 "for the code as it was (join after every command) the model exhibits the blocked manager at k = 1 and a deadlock at "
+                 "k = CHANNEL_SIZE + 2 (decide). Totality of reply parsing is observed on the real parser (no panic on any generated body).",
+        "note": KERNEL + "PARTIAL for part 2: the retry model is hand-abstracted from tokio's spawn/mpsc/JoinHandle semantics and is tied to the real "
+                "Session::run only by end-to-end runs against a scripted loopback tracker (one per quick run, five in the thorough tier incl. 67 failures); "
+                "real-time scheduling, reqwest and the OS are not modelled.",
+        "technique": "Lean 4 proof (decision logic for replies; invariant + variant function over all interleavings of an abstract protocol) + differential correspondence incl. end-to-end session runs",
+    },
     "C18": {
         "level": "Kernel-checked for every announce URL (with or without a query), every hash / peer id byte string, port and total length: "
                  "percent-decoding the escaped info-hash gives back exactly the bytes - all 256 byte values, by kernel enumeration (T1); the escaped text "
